@@ -126,6 +126,17 @@ CLAIMED.update({
              design_ref="DESIGN.md sec. 3 C41"),
 })
 
+CLAIMED.update({
+ "C51": dict(text="The real RuleSet/RewriteRule/_match/_process_match run on rule sets (<=2 rules) and terms (depth <=2, arity <=3) from a choice grammar with "
+                  "symbolic integer constants; an independent recursive matcher returns its match condition as a z3 formula: a rule is yielded exactly once iff "
+                  "it matches, bindings equal the reference, the instantiated lhs equals the term, top-level and bottom-up rewrites give the rhs of a "
+                  "matching rule instantiated simultaneously, or the term unchanged. Mixed arities of one symbol are explored too; their violations are the "
+                  "listed known finding (documented variadic matching).",
+             note=_ENUM_NOTE + "Pattern/term constants are hashed by the discrimination net, i.e. enumerated over small ranges; only the repeated-variable "
+                  "consistency test and the reference conditions are genuine solver decisions. Outside: function objects / lists as arguments, depth > 2.",
+             design_ref="DESIGN.md sec. 3 C51"),
+})
+
 NOT_APPLICABLE = {}
 
 _NA_DESIGN = {
